@@ -65,6 +65,7 @@ type Contract struct {
 	Criticals  [][2]string // critical A .. B: no mutex release on a path from the call of A to the call of B
 	Exhaustive []int       // loop ordinals that must be left only through their header
 	ErrorsFrom []string    // errorsfrom A, B: every returned error originates in a call of one of these
+	ReleasesLock bool      // releaseslock: no return with a sync mutex taken in the function still held
 	HasErrorsFrom bool
 	RecvNonNil bool
 	Params     []string // optional explicit parameter names (for externals)
@@ -311,6 +312,10 @@ func ParseSpecFile(path string, pkgName string) (*SpecFile, error) {
 					cur.ErrorsFrom = append(cur.ErrorsFrom, n)
 				}
 			}
+		case "releaseslock":
+			// no path returns while a sync.Mutex / RWMutex write lock that the function
+			// took (not through defer) is still held
+			cur.ReleasesLock = true
 		case "chanstate":
 			// sends and closes in this function are checked against ghost(closed, ch):
 			// a send or a close needs closed == 0, a close sets it to 1
